@@ -252,6 +252,18 @@ func c03States(tier string) []routeState {
 			out = append(out, routeState{mkTemplates(set, G, G), none})
 		}
 	}
+	if tier == "thorough" {
+		// one non-canonical representative per orbit of the |T|=2 sets (checks the symmetry reduction itself)
+		for _, set := range templateSets(2, 2, nil) {
+			var alt []string
+			for _, t := range set {
+				alt = append(alt, applySym(t, c03Sym[3]))
+			}
+			if strings.Join(alt, " ") != strings.Join(set, " ") {
+				out = append(out, routeState{mkTemplates(alt, G, GP), none})
+			}
+		}
+	}
 	// |T| = 3
 	if tier == "thorough" {
 		for _, set := range templateSets(3, 2, nil) {
